@@ -46,6 +46,7 @@ type fcase struct {
 }
 
 func suiteC18(cfg Config, res *Result) {
+	defer c18Wordwrap(res)
 	defer c18WidthratioForms(res)
 	defer filterTagRecursion(res, "filter", "c18-filter-tag-recursion")
 	defer c18NilParam(res)
